@@ -205,13 +205,13 @@ def make(seed, n_pairs):
         ty = "GBox<'static>" if group else "TBox<'static>"
         ty2 = "GArcBox<'static>" if group else "TArcBox<'static>"
         rows.append((k, kind, expect, a_src + ga, b_src + gb, ty, ty2))
-    body.append("fn pairs() -> Vec<(Pair, VerifyLayout, VerifyLayout, VerifyLayout, VerifyLayout)> { vec![")
+    body.append("fn pairs() -> Vec<(Pair, VerifyLayout, VerifyLayout, [VerifyLayout; 4], VerifyLayout)> { vec![")
     for (k, kind, expect, a, b, ty, ty2) in rows:
         esc = lambda s: s.replace("\\", "\\\\").replace('"', '\\"').replace("\n", "\\n")
         body.append(f"    (Pair {{ id: \"p{k}\".into(), kind: \"{kind}\".into(), expect: \"{expect}\".into(), a: \"{esc(a)}\".into(), b: \"{esc(b)}\".into() }},"
                     f" compare_layouts(Some(<a{k}::{ty} as StableAbi>::LAYOUT), Some(<b{k}::{ty} as StableAbi>::LAYOUT)),"
                     f" compare_layouts(Some(<a{k}::{ty2} as StableAbi>::LAYOUT), Some(<b{k}::{ty2} as StableAbi>::LAYOUT)),"
-                    f" compare_layouts(Some(<a{k}::{ty} as StableAbi>::LAYOUT), None),"
+                    f" [compare_layouts(Some(<a{k}::{ty} as StableAbi>::LAYOUT), None), compare_layouts(None, Some(<b{k}::{ty} as StableAbi>::LAYOUT)), compare_layouts(None, None), VerifyLayout::check::<a{k}::{ty}>(None)],"
                     f" VerifyLayout::check::<a{k}::{ty}>(Some(<a{k}::{ty} as StableAbi>::LAYOUT))),")
     body.append("] }")
     body.append(MAIN)
@@ -253,8 +253,10 @@ fn main() {
     for (p, v_box, v_arc, v_none, v_self) in pairs() {
         if let Some(r) = &replay { if r.id != p.id { continue; } } else if ctx.is_replay() { continue; }
         ctx.eval_nofreeze("pairs", &p, |p| {
-            if !matches!(v_none, VerifyLayout::Unknown) {
-                return Err(Fail::new("C20:missing-not-unknown", format!("a missing layout description gives {}", verdict(&v_none))));
+            for (which, v) in ["(Some, None)", "(None, Some)", "(None, None)", "check(None)"].iter().zip(v_none.iter()) {
+                if !matches!(v, VerifyLayout::Unknown) {
+                    return Err(Fail::new("C20:missing-not-unknown", format!("a missing layout description {which} gives {}", verdict(v))));
+                }
             }
             if !matches!(v_self, VerifyLayout::Valid) {
                 return Err(Fail::new("C20:identical-rejected", format!("a type compared with its own layout gives {}", verdict(&v_self))));
